@@ -383,7 +383,7 @@ def lean_rat(fr):
 
 
 # ------------------------------------------------------------------ driver
-HEADER = "/- GENERATED by harness/translate.py from /repo/src/shapepy — do not edit; regenerated on every run -/\nset_option linter.unusedVariables false\n"
+HEADER = "/- GENERATED by harness/translate.py from /repo/src/shapepy — do not edit; regenerated on every run -/\n"
 
 
 def regenerate(srcdir, gendir):
@@ -391,7 +391,7 @@ def regenerate(srcdir, gendir):
     shape_src = os.path.join(srcdir, "shape.py")
     tree = ast.parse(open(shape_src).read())
     fname = "shape.py"
-    out = [HEADER, "import ShapeVerif.Model.Dispatch\n\nnamespace ShapeVerif.Gen\nopen ShapeVerif\n"]
+    out = [HEADER, "import ShapeVerif.Model.Dispatch\nset_option linter.unusedVariables false\n\nnamespace ShapeVerif.Gen\nopen ShapeVerif\n"]
 
     def emit(name, ty, thunk):
         try:
@@ -432,7 +432,7 @@ def regenerate(srcdir, gendir):
     ch1 = write_if_changed(os.path.join(gendir, "Dispatch.lean"), "".join(out))
 
     # plot + consts
-    out2 = [HEADER, "import ShapeVerif.Model.Plot\n\nnamespace ShapeVerif.Gen\nopen ShapeVerif\n"]
+    out2 = [HEADER, "import ShapeVerif.Model.Plot\nset_option linter.unusedVariables false\n\nnamespace ShapeVerif.Gen\nopen ShapeVerif\n"]
     try:
         ptree = ast.parse(open(os.path.join(srcdir, "plot.py")).read())
         tbl = patch_table(ptree, "plot.py")
